@@ -199,6 +199,14 @@ struct Sim {
         }
         return false;
     }
+    /** which copies (bit per kind) of each genuine transaction the node has processed so far */
+    std::string Masks()
+    {
+        std::string m;
+        char b[32];
+        for (int j = 0; j < (int)G.size(); ++j) { snprintf(b, sizeof b, "%sG%d:%02x", j ? " " : "", j, G[j].copies_processed); m += b; }
+        return m;
+    }
     SimPeer* Peer(const Op& op, size_t arg)
     {
         if (net->peers.empty()) return nullptr;
@@ -334,13 +342,13 @@ struct Sim {
         auto r = TwinSubmit(G[j].tx);
         twin->DrainSignals();
         if (r.m_result_type == MempoolAcceptResult::ResultType::VALID)
-            ctx.failf("genuine-tx-not-accepted", "%s: peer#%d delivered the genuine G%d (copies processed before: mask %x); the twin node, which never saw a copy, accepts it, the node does not have it in its mempool", how, p.idx, j, G[j].copies_processed);
+            ctx.failf("genuine-tx-not-accepted", "%s: peer#%d delivered the genuine G%d (copies processed before, bit per kind: %s); the twin node, which never saw a copy, accepts it, the node does not have it in its mempool", how, p.idx, j, Masks().c_str());
         const bool missing = r.m_state.GetResult() == TxValidationResult::TX_MISSING_INPUTS;
         const bool kept = InOrphanage(G[j].wtxid);
         ctx.evf("%s: peer#%d delivers G%d -> twin says %s, orphanage=%d", how, p.idx, j, r.m_state.GetRejectReason().c_str(), (int)kept);
         if (missing) {
             // validated = recognised as an orphan and kept for when the parent shows up; silently dropping it would be "ignored as already known"
-            if (!kept) ctx.failf("genuine-orphan-not-kept", "%s: peer#%d delivered the genuine G%d while its parent is unknown; the node neither accepted it nor kept it as an orphan (copies processed before: mask %x)", how, p.idx, j, G[j].copies_processed);
+            if (!kept) ctx.failf("genuine-orphan-not-kept", "%s: peer#%d delivered the genuine G%d while its parent is unknown; the node neither accepted it nor kept it as an orphan (copies processed before, bit per kind: %s)", how, p.idx, j, Masks().c_str());
             ctx.probe("genuine_kept_as_orphan");
             if (G[j].copies_processed) { ctx.probe("genuine_kept_as_orphan_after_copy"); ctx.nontrivial = true; }
         } else {
@@ -639,6 +647,7 @@ struct Sim {
     {
         epilogue = true;
         SettleAll();
+        for (auto& st : ps) st.open.clear(); // requests made before this point stay unanswered (they time out); later ones are answered honestly
         TwinSync("before the honest phase");
         AddPeer(ctx.knob("epi_out", 0) != 0);
         SimPeer& H = *net->peers.back();
@@ -665,8 +674,8 @@ struct Sim {
                 return;
             }
             if (G[j].req_epilogue == 0)
-                ctx.failf("genuine-tx-not-requested", "%s: the node never sent a getdata for the genuine G%d (valid per the twin; copies processed before: mask %x) within %lds of simulated time after the last fault", how, j, G[j].copies_processed, (long)kRequestBoundS);
-            ctx.failf("genuine-tx-not-accepted", "%s: the node requested the genuine G%d and an honest peer delivered it, the twin accepts it, the node does not have it in its mempool (copies processed before: mask %x)", how, j, G[j].copies_processed);
+                ctx.failf("genuine-tx-not-requested", "%s: the node never sent a getdata for the genuine G%d (valid per the twin; copies processed before, bit per kind: %s) within %lds of simulated time after the last fault", how, j, Masks().c_str(), (long)kRequestBoundS);
+            ctx.failf("genuine-tx-not-accepted", "%s: the node requested the genuine G%d and an honest peer delivered it, the twin accepts it, the node does not have it in its mempool (copies processed before, bit per kind: %s)", how, j, Masks().c_str());
         };
         auto announce_each = [&] {
             for (int j = 0; j < (int)G.size(); ++j) {
@@ -733,7 +742,7 @@ struct Sim {
                             valid = r.m_result_type == MempoolAcceptResult::ResultType::VALID;
                         }
                         if (valid)
-                            ctx.failf("genuine-tx-not-requested", "%s: the node never sent a getdata for the genuine G%d (valid per the twin; copies processed before: mask %x) within %lds per hop of simulated time after the last fault, although an honest peer %s", brk == k ? "announce-by-wtxid" : "parent-fetch-by-txid", brk, G[brk].copies_processed, (long)kRequestBoundS, brk == k ? "announced it" : "delivered its child");
+                            ctx.failf("genuine-tx-not-requested", "%s: the node never sent a getdata for the genuine G%d (valid per the twin; copies processed before, bit per kind: %s) within %lds per hop of simulated time after the last fault, although an honest peer %s", brk == k ? "announce-by-wtxid" : "parent-fetch-by-txid", brk, Masks().c_str(), (long)kRequestBoundS, brk == k ? "announced it" : "delivered its child");
                         ctx.probe("epilogue_genuine_invalid_for_twin_too");
                         return;
                     } else {
@@ -754,14 +763,10 @@ struct Sim {
         if (!known_finding.empty()) ctx.failf("parent-fetch-suppressed-by-stripped-orphan-copy", "%s", known_finding.c_str());
     }
 
-    static double NowS() { struct timespec ts; clock_gettime(CLOCK_PROCESS_CPUTIME_ID, &ts); return ts.tv_sec + ts.tv_nsec * 1e-9; } // TEMP
     void Run()
     {
-        double t0 = NowS(); // TEMP
         ms.Setup();
-        double t1 = NowS(); // TEMP
         StartTwin();
-        double t2 = NowS(); // TEMP
         net = std::make_unique<NetNode>(ms.node(), PeerManager::Options{});
         if (!BuildGenuine()) {
             ctx.evf("no confirmed segwit coin to build on");
@@ -779,9 +784,7 @@ struct Sim {
             ctx.fingerprint(Fingerprint());
         }
         if (variants_processed) ctx.probe("run_with_copies");
-        double t3 = NowS(); // TEMP
         Epilogue();
-        if (FILE* tf = getenv("C64_TIMING") ? fopen("/tmp/vd_c64/timing.txt", "a") : nullptr) fprintf(tf, "TIMING setup=%.3f twin=%.3f ops=%.3f epi=%.3f nops=%zu\n", t1 - t0, t2 - t1, t3 - t2, NowS() - t3, ctx.plan.ops.size()); // TEMP
         ctx.fingerprint(Fingerprint());
         ctx.sim_ms = (uint64_t)(ms.cs.now - ms.cs.start_time) * 1000;
         net.reset();
@@ -806,8 +809,8 @@ Engine MakeEngine()
     e.run = Run;
     e.describe = Describe;
     e.chunk = 1;
-    e.quick_runs = 300;
-    e.thorough_runs = 12000;
+    e.quick_runs = 800;
+    e.thorough_runs = 24000;
     e.quick_budget_s = 50;
     e.thorough_budget_s = 900;
     e.rule = "each run = one real node with 2-5 (up to 7) scripted wtxid-relay peers (inbound or outbound), a chain of 1-3 valid segwit transactions G0->G1->G2 built on deep confirmed P2WPKH/P2TR/P2WSH/P2SH-P2WPKH coins, "
